@@ -468,7 +468,11 @@ func (fr *Frame) execCall(st *State, c *ssa.CallCommon, site ssa.Value) Val {
 func (fr *Frame) callStatic(st *State, fn *ssa.Function, args []Val, binds []Val, resT types.Type) Val {
 	g := fr.g
 	key := funcKey(fn)
+	fr.callSiteChecks(st, fn.Name(), fn.Signature.Recv() != nil, args)
 	if con := g.P.contracts[key]; con != nil && !con.Inline {
+		return fr.applyContract(st, con, fn, args, resT)
+	}
+	if con := g.P.contracts["ext:"+stdName(fn)]; con != nil {
 		return fr.applyContract(st, con, fn, args, resT)
 	}
 	if v, ok := fr.trustedCall(st, fn, args, resT); ok {
@@ -484,6 +488,31 @@ func (fr *Frame) callStatic(st *State, fn *ssa.Function, args []Val, binds []Val
 	}
 	g.note("call to " + fn.String() + " havocked (no contract, not inlinable)")
 	return fr.havocCall(st, args, resT, sanitize(fn.Name()))
+}
+
+// callSiteChecks proves the function's "callsite NAME: expr" clauses at a call to NAME. Inside expr, recv is the
+// receiver and arg0, arg1, ... are the arguments; locals and parameters of the calling function are visible.
+func (fr *Frame) callSiteChecks(st *State, callee string, hasRecv bool, args []Val) {
+	if !fr.top || fr.con == nil || len(fr.con.CallSites) == 0 {
+		return
+	}
+	g := fr.g
+	for i, cs := range fr.con.CallSites {
+		if cs.Callee != callee {
+			continue
+		}
+		bound := map[string]SV{}
+		rest := args
+		if hasRecv && len(args) > 0 {
+			bound["recv"] = goSV(args[0])
+			rest = args[1:]
+		}
+		for k, a := range rest {
+			bound[fmt.Sprintf("arg%d", k)] = goSV(a)
+		}
+		t := fr.evalBool(cs.Clause.Expr, &specCtx{fr: fr, st: st, old: fr.entry, kind: ctxInv, pkg: fr.con.Pkg, bound: bound})
+		g.oblige("callsite", fmt.Sprintf("%s.%d", callee, i+1), st.path, t, "at every call of "+callee+": "+cs.Clause.Text)
+	}
 }
 
 func (fr *Frame) pureResult(st *State, fn *ssa.Function, resT types.Type) Val {
